@@ -8,6 +8,7 @@ the operation list) and every sequence of further crashes during resumes (`Reach
 Power loss (no fsync) is out of scope: a crash loses no completed file-system step.
 -/
 import Dawgs.Proofs.C19
+import Dawgs.Model.C19Scrub
 namespace Dawgs.C19.Props
 open Dawgs.C18 Dawgs.C19
 
@@ -286,6 +287,123 @@ theorem resume_refuses_on_unexpected_file (db : List (Graph P)) (ident : Identit
       · split
         · simp
         · simp [hun]
+
+/-- Foreign files, both directions. In a directory that holds a genuine checkpoint version, no manifest and that
+version's fragments intact, resume succeeds EXACTLY when every file in the directory is the checkpoint, one of the
+three temporaries resume knows (checkpoint temp, manifest temp, the next fragment's temp) or a fragment the
+checkpoint records — a single other regular file anywhere (any name: `*.tmp`, fragment-like beyond the cursor,
+hidden, …) makes it refuse. Directories are not files. -/
+theorem resume_ok_iff_no_foreign_file (db : List (Graph P)) (ident : Identity) (hset : Setting db ident) (v : Ckpt P)
+    (hg : Genuine db ident v) (fs : FS P) (hc : fs.get .ckpt = some (.ckpt v)) (hm : fs.get .manifest = none)
+    (hfr : ∀ f ∈ committed v, fs.get (.frag f.path) = some (.frag f.content)) :
+    (resume db ident fs).outcome = .ok ↔
+      ∀ q, fs.get q ≠ none → q = .ckpt ∨ q ∈ knownTemps ident v ∨ ∃ f ∈ committed v, FPath.frag f.path = q := by
+  constructor
+  · intro hok q hq
+    by_cases h1 : q = FPath.ckpt
+    · exact Or.inl h1
+    · by_cases h2 : q ∈ knownTemps ident v
+      · exact Or.inr (Or.inl h2)
+      · by_cases h3 : ∃ f ∈ committed v, FPath.frag f.path = q
+        · exact Or.inr (Or.inr h3)
+        · exfalso
+          exact resume_refuses_on_unexpected_file db ident fs v hc q hq h1 h2
+            (fun f hf he => h3 ⟨f, hf, he⟩) hok
+  · intro hall
+    have hnd := committed_nodup db ident hset v (hg.shape hset)
+    have notKnown : ∀ q, q ∈ knownTemps ident v → (∀ p, q ≠ FPath.frag p) ∧ (∀ n, q ≠ FPath.stray n) := by
+      intro q hq
+      rcases knownTemps_kinds ident v q hq with h | h | ⟨p, h⟩ <;>
+        (subst h; exact ⟨fun _ e => FPath.noConfusion e, fun _ e => FPath.noConfusion e⟩)
+    have hnear : Near ident v fs := by
+      refine ⟨hc, hm, ?_, ?_, ?_⟩
+      · intro p
+        cases hget : fs.get (.frag p) with
+        | none =>
+          cases hfg : fragGet v p with
+          | none => rfl
+          | some d =>
+            obtain ⟨f, hf, hfp⟩ := fragGet_some_mem v p d hfg
+            have := hfr f hf
+            rw [hfp, hget] at this
+            cases this
+        | some d =>
+          rcases hall (.frag p) (by rw [hget]; simp) with h | h | ⟨f, hf, he⟩
+          · cases h
+          · exact absurd rfl ((notKnown _ h).1 p)
+          · have hp : f.path = p := by injection he
+            rw [← hp, fragGet_of_mem v hnd f hf, ← hfr f hf, hp, hget]
+      · intro n
+        cases hget : fs.get (.stray n) with
+        | none => rfl
+        | some d =>
+          rcases hall (.stray n) (by rw [hget]; simp) with h | h | ⟨f, _, he⟩
+          · cases h
+          · exact absurd rfl ((notKnown _ h).2 n)
+          · cases he
+      · intro p hp
+        rcases hall (.fragTmp p) hp with h | h | ⟨f, _, he⟩
+        · cases h
+        · exact h
+        · cases he
+    rw [resume_near db ident hset v (hg.shape hset) fs hnear]
+
+/-! ### The scrubber's plan cache is unobservable
+
+With scrubbing on, every property is treated according to the plan of its key, memoised per graph under the
+normalised key; a resumed dump starts with an empty cache. -/
+
+/-- a cache holds only what `compute` would produce -/
+def CacheOk {K V : Type} (compute : K → V) (cache : List (K × V)) : Prop := ∀ k v, (k, v) ∈ cache → v = compute k
+
+/-- If the cached plan is computed from the cache key (the normalised key) only, memoisation is unobservable: from
+ANY consistent cache — the one an uninterrupted dump has built up, or the empty one a resumed dump starts with —
+the plans used for any sequence of raw keys are `compute (norm raw)`, independent of which spellings came first. -/
+theorem scrub_plan_cache_unobservable {K V : Type} [BEq K] [LawfulBEq K] (norm : String → K) (compute : K → V) :
+    ∀ (raws : List String) (cache : List (K × V)), CacheOk compute cache →
+      planAll norm compute cache raws = raws.map (fun r => compute (norm r)) := by
+  intro raws
+  induction raws with
+  | nil => intro _ _; rfl
+  | cons raw raws ih =>
+    intro cache hc
+    have hlook : ∀ v, cache.lookup (norm raw) = some v → v = compute (norm raw) := by
+      intro v hv
+      induction cache with
+      | nil => simp at hv
+      | cons e t iht =>
+        rw [List.lookup_cons] at hv
+        by_cases he : norm raw == e.1
+        · rw [he] at hv
+          have hk : norm raw = e.1 := by simpa using he
+          rw [hk]
+          cases hv
+          exact hc e.1 e.2 List.mem_cons_self
+        · have : (norm raw == e.1) = false := by simpa using he
+          rw [this] at hv
+          exact iht (fun k v h => hc k v (List.mem_cons_of_mem _ h)) hv
+    simp only [planAll, List.map_cons]
+    unfold planKey
+    cases hl : cache.lookup (norm raw) with
+    | some v =>
+      simp only
+      rw [hlook v hl, ih cache hc]
+    | none =>
+      simp only
+      rw [ih _ (by
+        intro k v hmem
+        rcases List.mem_cons.mp hmem with h | h
+        · cases h; rfl
+        · exact hc k v h)]
+
+/-- The defective shape is observable: when the stored plan is computed from the raw spelling, the plan used for
+`Description` depends on whether `description` was seen before (uninterrupted dump) or not (resumed dump). -/
+theorem scrub_plan_from_raw_key_observable :
+    let norm : String → String := fun raw => if raw == "Description" then "description" else raw
+    let freeText : String → Bool := fun raw => raw == "description"
+    (planKeyRaw norm freeText (planKeyRaw norm freeText [] "description").2 "Description").1 ≠
+    (planKeyRaw norm freeText [] "Description").1 := by
+  decide
 
 /-- C19 at the strength of properties.jsonl on the file-system model. -/
 def C19_full : Prop :=
